@@ -97,8 +97,10 @@ def run(res, tier, seed):
             if any(k != "genuine" for k in kinds):
                 forged_msgs += 1
                 res.nontrivial.add(e["case"])
+    # (vacuity is judged at the end: a client that refuses every genuine chain is a violation, not a vacuous run)
+    vacuity = []
     if chains_ok == 0 or forged_msgs == 0:
-        raise vlib.ToolError(f"vacuous multiplexer run: genuine chains delivered={chains_ok}, cases with a forged message={forged_msgs}")
+        vacuity.append(f"vacuous multiplexer run: genuine chains delivered={chains_ok}, cases with a forged message={forged_msgs}")
     res.traces += mux_events
     res.evaluations += mux_events
     res.extra.update({"multiplexer_signed_request_cases": mux_events, "multiplexer_genuine_chains_delivered": chains_ok,
@@ -120,7 +122,7 @@ def run(res, tier, seed):
                 udp_forged += 1
                 res.nontrivial.add(e["case"])
     if udp_genuine_ok == 0 or udp_forged == 0:
-        raise vlib.ToolError(f"vacuous UDP client run: genuine replies delivered={udp_genuine_ok}, forged replies judged={udp_forged}")
+        vacuity.append(f"vacuous UDP client run: genuine replies delivered={udp_genuine_ok}, forged replies judged={udp_forged}")
     res.traces += udp_events
     res.evaluations += udp_events
     res.extra.update({"udp_client_signed_request_cases": udp_events, "udp_client_genuine_replies_delivered": udp_genuine_ok,
@@ -150,7 +152,7 @@ def run(res, tier, seed):
             else:
                 res.nontrivial.add(e["case"])
     if genuine_eff == 0:
-        raise vlib.ToolError("vacuous mutation sweep: no genuine request took effect")
+        vacuity.append("vacuous mutation sweep: no genuine request took effect")
     res.traces += nm
     res.evaluations += nm
     res.extra.update({"mutated_requests_sent": nm, "corpus": n_corpus, "genuine_after_sweep_effective": genuine_eff})
@@ -170,6 +172,8 @@ def run(res, tier, seed):
         else:
             cls = "reply-obligation-fails"
         res.mismatch(cls, {"op": r["op"], "tamper": r["tamper"]}, m)
+    if vacuity and not res.violations:
+        raise vlib.ToolError(vacuity[0])
 
 
 def replay(res, path):
